@@ -1264,7 +1264,11 @@ pub fn plan(prop: &str, tier: Tier, seeds: &[u64]) -> Vec<Sweep> {
                 }
             }
         }
-        sweeps.push(Sweep { name: "bulk".into(), alphabet: vec![], depth: 0, cfgs, oracles, keys: vec![NEVER_KEY], trailing_reopens: 0, preload: vec![], words });
+        sweeps.push(Sweep { name: "bulk".into(), alphabet: vec![], depth: 0, cfgs, oracles, keys: vec![NEVER_KEY], trailing_reopens: 0, preload: vec![], words: words.clone() });
+        // the same with ONE ENTRY PER FILE (file size limit 0): a merge pass over thousands of files
+        let few: Vec<Vec<Op>> = words.into_iter().filter(|w| w.iter().all(|o| !matches!(o, Op::Fill(n, _) | Op::Drain(n, _) if *n > 5000))).collect();
+        let cfgs0: Vec<Cfg> = [Thr::All, Thr::Dead].iter().map(|&thr| Cfg { mfs: 0, thr, cache: 1, conc: 1, seed: seeds[0], sync_always: false, clock: 0 }).collect();
+        sweeps.push(Sweep { name: "bulk-one-entry-per-file".into(), alphabet: vec![], depth: 0, cfgs: cfgs0, oracles, keys: vec![NEVER_KEY], trailing_reopens: 0, preload: vec![], words: few });
     };
     // More than 2^20 entries in ONE hint file / one merge pass / one start-up scan (a single word,
     // a worker is busy with it for half a minute)
